@@ -1,171 +1,212 @@
-"""Registry of the properties the machinery decides: Coq target, harness domains, evidence rules."""
+"""Registry of the properties the machinery decides: Coq target, harness domains, evidence rules.
+One top-level `PROPS["Cxx"] = {...}` statement per property (append-only, merge friendly)."""
 
-CODEC_TB = [
-    "hand model coq/Model/Telegram.v of src/fdl/telegram.rs (FunctionCode, DataTelegramHeader::serialize, "
-    "DataTelegram/TokenTelegram/Telegram::deserialize, TelegramTx), tied by differential execution on this run's cases",
-    "Rust u8/usize operators as modelled: wrapping_add = sum mod 256, | & << >> = Z.lor/Z.land/Z.shiftl/Z.shiftr on 0..255",
-]
-
-PROPS = {
-    "C09": {
-        "coq": "Properties/C09.v",
-        "domains": ["codec"],
-        "nontrivial": ["enc:ok", "fc:valid", "tok", "sc"],
-        "rule": "cases = generated ENC/TOK/SC/FC lines (every SAP combination x every PDU length 0..limit+1, every "
-                "function code x structural lengths, all 256 FC bytes, oversize and small-buffer inputs), deduplicated; "
-                "non-trivial = distinct in-domain encodes (valid header, length byte <= 249, buffer large enough), valid FC bytes, token and SC encodes",
-        "trusted_base": CODEC_TB,
-        "technique": "Coq proof (round-trip theorems over a Gallina model of telegram.rs) + differential correspondence model vs crate",
-        "level_text": "Machine-checked theorems (Coq 8.16.1, closed under the global context) that the model of the encoder writes exactly the "
-                      "PROFIBUS frame layout, reports its length, and that the model of the decoder inverts it for every header, function code and payload "
-                      "up to the frame limit, consuming exactly those bytes. The model is tied to the crate on every run by executing both on ~40k generated "
-                      "encodes/decodes (all SAP combinations x all PDU lengths, all function codes, all 256 FC bytes) and comparing outputs; the theorem's "
-                      "boolean oracle also runs on the crate's outputs.",
-        "level_note": "Trusted: Coq kernel, the regex translator for constants/enum tables, OCaml extraction + driver, Rust harness; the hand-written model "
-                      "is validated, not verified, against telegram.rs (differential execution on the explored inputs).",
-        "design_ref": "DESIGN.md section 4, C09",
-        "assumptions": ["addresses 0..127, SAP and PDU bytes 0..255, length byte <= 249 (the code's own assert), transmit buffer >= telegram length"],
-    },
-    "C10": {
-        "claimed": True,
-        "coq": "Properties/C10.v",
-        "domains": ["codec"],
-        "nontrivial": ["dec:A", "dec:R", "mut:"],
-        "rule": "cases = generated DEC/MUT lines (all strings of length <= 1, length-2 strings with delimiter first (all in thorough), "
-                "structured SD2 headers, every proper prefix and every position x 8 bit flips + random + delimiter substitutions of valid frames, "
-                "random/mutational strings to 262 bytes), deduplicated; non-trivial = distinct decodes that get past the length guard "
-                "(model verdict Accept or Reject) plus all single-byte substitutions",
-        "trusted_base": CODEC_TB,
-        "technique": "Coq proof (decoder characterisation, totality, prefix consistency, single-byte corruption) + differential correspondence",
-        "level_text": "Machine-checked theorems over all byte strings (no length bound) about the Gallina model of Telegram::deserialize: never panics, "
-                      "Accept lies inside the input and meets the frame criterion, NeedMore only when shorter than the announced length, verdicts are stable "
-                      "under extension, every single-byte substitution of a valid data frame or SC is rejected (except first-delimiter swaps to another valid "
-                      "delimiter, a limit of the frame format). Model tied to the crate by differential execution incl. all short strings and every "
-                      "position of sampled valid frames.",
-        "level_note": "Trusted: Coq kernel, translator, extraction + OCaml driver, Rust harness; hand model validated differentially, not verified.",
-        "design_ref": "DESIGN.md section 4, C10",
-        "assumptions": ["input bytes 0..255", "a substitution of the first start delimiter by another valid delimiter is outside the single-byte clause (DESIGN 4.0)"],
-    },
-    "C20": {
-        "coq": "Properties/C20.v",
-        "domains": ["prm"],
-        "nontrivial": ["set:ok", "set:err", "wv:ok", "wv:err", "new:"],
-        "rule": "cases = corpus/prm (F9 witnesses) + generated lines, deduplicated: WV = write_value_to_slice on bare slices (every data type incl. all "
-                "Bit(0..9)/BitArea(0..8,0..8) and malformed positions x boundary/extreme values x short/exact/long slices); PRM = a random description "
-                "(single fields of every type; several Bit/BitArea fields sharing a byte over constants plus integers; fully random overlapping layouts with "
-                "malformed bit positions, out-of-type defaults, duplicated names) followed by 3-14 set_prm/set_prm_from_text calls with in-range, boundary, "
-                "out-of-range, out-of-type, extreme (i64::MIN/MAX) values, unknown names and texts; as_bytes() and Ok/Err(kind)/PANIC after every call. "
-                "evaluations = case lines; non-trivial = individual new()/set calls and write_value calls by model verdict (set:ok:<type>, set:err:<kind>, new:*, wv:*)",
-        "trusted_base": [
-            "hand model coq/Model/Prm.v of gsd-parser/src/lib.rs (UserPrmDataType::write_value_to_slice, PrmValueConstraint::assert_valid, get_prm, "
-            "get_value_from_text, write_constrained_value_to_slice, PrmBuilder::{new, set_prm, set_prm_from_text, as_bytes}), tied by differential execution on this run's cases",
-            "gen/tr_prm.py: data type enum, size() table and the integer type of every integer arm of write_value_to_slice regenerated from the source",
-            "hand specification coq/Model/PrmOracle.v (value ranges of the GSD data types, field bit positions, big-endian two's complement as Z.testbit)",
-            "Rust u8 operators as modelled: & | ^ << on 0..255 = Z.land/Z.lor/Z.lxor/Z.shiftl (mod 256); names/text keys are numeric ids mapped to the strings p<id>/t<id>",
-        ],
-        "technique": "Coq proof (overlay / exact-bits / rejects-unchanged / exact type ranges / no-panic / history theorems over a Gallina model of the parameter-block "
-                     "builder, with the known class F9-bitarea excluded and refuted inside) + differential correspondence model vs crate + spec oracle on the crate's outputs",
-        "level_text": "Machine-checked theorems (Coq 8.16.1, closed under the global context) about the Gallina model of gsd-parser's PrmBuilder: new() builds exactly the "
-                      "constants overlaid field by field with the defaults; an admitted set_prm/set_prm_from_text changes exactly the bits that (offset, data type) define to the "
-                      "big-endian two's-complement value and no other bit, for every data type and every block state; every other call (unknown name/text, outside range/enumeration "
-                      "or data type) returns Err and leaves the block unchanged; each data type accepts exactly its value range (signed types their signed range); no description and no "
-                      "call sequence panics; the per-call oracle holds along every history. All of it for everything OUTSIDE one known class (F9-bitarea: a BitArea field written "
-                      "into a byte that has a bit set outside the area), inside which the law is refuted by theorem and reported as a known finding. The model is tied to the crate on "
-                      "every run by executing both on ~8k generated case lines (~35k individual new/set/write_value calls) and comparing as_bytes() and Ok/Err kind after every call; the "
-                      "specification oracle also runs on the crate's outputs.",
-        "level_note": "KNOWN FINDING F9-bitarea (status finding, not fixable with the suite unedited: regress_prm snapshot pins the clobbered byte): BitArea assigns the whole byte, so "
-                      "the property is FALSE of the crate inside the known class; the check prints KNOWN-FINDING and excuses only that class (a weaker oracle - own bits correct, all other "
-                      "bytes unchanged - still runs there). Three further F9 defects were repaired in the repository clone (Bit could not be cleared, Signed16 through u16, overflow panics "
-                      "on bit positions outside the byte); the model is of the repaired code. Trusted: Coq kernel, the regex translator, OCaml extraction + driver, Rust harness; the "
-                      "hand-written model is validated differentially, not verified, against lib.rs. usize overflow of offset+size and allocation failure are outside the model (offsets are nat).",
-        "design_ref": "DESIGN.md section 4, C20; section 7, F9",
-        "assumptions": [
-            "constant bytes 0..255, bit positions 0..255 (u8), values i64; offsets small enough that offset+size does not overflow usize and the block can be allocated",
-            "outside the known class F9-bitarea (known_write / known_new in coq/Model/PrmOracle.v)",
-            "text keys of one PrmText are unique (BTreeMap); the first reference with a name wins (get_prm)",
-        ],
-    },
-    "C17": {
-        "coq": "Properties/C17.v",
-        "domains": ["diag"],
-        "nontrivial": ["fill:stored", "fill:too-large", "fill:no-buffer", "iter:1-block", "iter:2+blocks", "iter:0-blocks",
-                       "dp:accepted", "dp:rejected", "scan:found"],
-        "rule": "cases = generated ED lines (hook path: ExtendedDiagnostics::from_buffer + fill + raw_diag_buffer + iter_diag_blocks + Debug; "
-                "all 1-byte strings x capacities {none,0,1,|ext|-1,|ext|,64,244}, all 65536 2-byte strings, every header byte with exact / "
-                "short / long / chained structured tails, all values of channel bytes 1 and 2, fill sequences with previous content, random and "
-                "structured strings of every length 0..244), DP lines (public path: DpMaster + Peripheral driven through FdlApplication::"
-                "transmit_telegram/receive_reply with hand-made reply telegrams, PDUs of every length 0..244, reply sequences with wrong SAPs, "
-                "SC and short PDUs in between, last_diagnostics() + Debug with the formatting logger installed) and SCAN lines (DpScanner::receive_reply), "
-                "plus corpus/diag, deduplicated; non-trivial = fills (stored / too large / no buffer), iterations of available buffers by number of blocks, "
-                "accepted and rejected DP replies, scanner finds",
-        "trusted_base": [
-            "hand model coq/Model/Diag.v of src/dp/diagnostics.rs (ExtendedDiagnostics, ExtDiagBlockIter::next, ChannelError/ChannelDataType) and of "
-            "handle_diagnostics_response / parse_diag_response (peripheral.rs, scan.rs), tied by differential execution on this run's cases",
-            "gen/tr_diag.py: DiagnosticFlags masks, header byte positions, channel error / data type tables, block type codes, length masks and the "
-            "presence of the length-0 guard are regenerated from the source; the hand-written specification tables in Model/DiagOracle.v are proved equal to them",
-            "Rust u8/u16/usize operators as modelled: & | >> = Z.land/Z.lor/Z.shiftr on 0..255, from_le/be_bytes = a + 256 b, flags.remove = Z.ldiff; "
-            "usize cursor arithmetic cannot overflow for buffers that fit in memory (not modelled)",
-            "BitSlice<u8, Lsb0>::from_slice / iter_ones of the bitvec crate are taken as: bit k of byte j is index 8j+k (checked differentially)",
-        ],
-        "technique": "Coq proof (header faithfulness, buffer fill, iterator totality and tiling for all byte strings, channel byte sweeps) over a Gallina "
-                     "model of the fixed code + differential correspondence model vs crate through the hook and through the public DP path",
-        "level_text": "Machine-checked theorems (Coq 8.16.1, closed under the global context) over ALL byte strings about the Gallina model of the diagnostics "
-                      "code: the reported ident, master address and every flag bit equal the wire bytes except the deliberately cleared marker bit 10; PDUs "
-                      "shorter than 6 bytes (and only those) are rejected; extended diagnostics are stored iff EXT_DIAG is set, a buffer exists and the string fits, "
-                      "otherwise the previous content is unchanged; the block iterator never panics, needs at most |buf|+1 steps, and its output is THE tiling "
-                      "of the buffer into consecutive well-formed blocks of their announced length, stopping exactly at the first malformed (reserved type, "
-                      "length 0) or truncated block; identifier / device data and all 256 values of each channel byte decode as the specification tables "
-                      "say; Debug formatting and any history of replies through handle_diagnostics_response never panic. The model is of the code WITH the "
-                      "F5 fix (length-0 block headers panicked the unfixed iterator; proved for the unguarded model, reproduced through the public DP path, "
-                      "fixed in commit c46c975, guard detected by the translator). Model tied to the crate on every run by ~87k cases (all 1- and 2-byte "
-                      "strings, all header bytes, PDU lengths 0..244, all capacity classes) through the verif-hooks wrappers and through DpMaster/DpScanner; "
-                      "the theorems' boolean oracles also run on the crate's outputs.",
-        "level_note": "Trusted: Coq kernel, gen/tr_diag.py, extraction + OCaml driver, Rust harness; the hand-written model is validated, not verified, "
-                      "against the Rust source (differential execution). Debug output is compared only as panic / no panic. Observation outside the property: "
-                      "iter_diag_blocks().next() on a peripheral WITHOUT diag buffer panics (raw_diag_buffer().unwrap()); modelled and stated explicitly.",
-        "design_ref": "DESIGN.md section 4, C17 (interpretation 4.0; finding F5 in section 7)",
-        "assumptions": ["bytes 0..255; the 'permanent' marker bit (bit 10 of the status word) is cleared on purpose and excluded from 'equal to the wire' (DESIGN 4.0)",
-                        "iteration is over the visible bytes of a container that has a buffer (without buffer there is no byte string; next() panics there, stated as C17_container_without_buffer_panics)",
-                        "debug logging enabled (worst case: the ext diag buffer is formatted on every stored reply)"],
-    },
-}
-
+PROPS = {}
 NOT_CLAIMED = {}
 
-PHY_TB = [
-    "hand models coq/Model/Phy.v (receive_telegram, receive_all_telegrams, poll_pending_received_bytes, transmit_telegram of src/phy/mod.rs, "
-    "both over a byte list and over an abstract PHY = view/drop pair), coq/Model/SimBus.v (SimulatorBus/SimulatorPhy of src/phy/simulator.rs: "
-    "current_cursor, pending_bytes, is_active, enqueue_telegram with its collision/delay panics, cursor) and coq/Model/Telegram.v (decoder), "
-    "tied by differential execution on this run's cases",
-    "one receive_* call sees an atomic snapshot of the PHY (true of SimulatorPhy and of the harness PHY: the bus time does not change inside a call)",
-    "Instant/Duration arithmetic as modelled: i64/u64 with overflow = panic (debug build), Instant - Instant = absolute difference",
-]
+PROPS["C09"] = {'coq': 'Properties/C09.v',
+ 'domains': ['codec'],
+ 'nontrivial': ['enc:ok', 'fc:valid', 'tok', 'sc'],
+ 'rule': 'cases = generated ENC/TOK/SC/FC lines (every SAP combination x every PDU length 0..limit+1, every function code x structural lengths, all '
+         '256 FC bytes, oversize and small-buffer inputs), deduplicated; non-trivial = distinct in-domain encodes (valid header, length byte <= 249, '
+         'buffer large enough), valid FC bytes, token and SC encodes',
+ 'trusted_base': ['hand model coq/Model/Telegram.v of src/fdl/telegram.rs (FunctionCode, DataTelegramHeader::serialize, '
+                  "DataTelegram/TokenTelegram/Telegram::deserialize, TelegramTx), tied by differential execution on this run's cases",
+                  'Rust u8/usize operators as modelled: wrapping_add = sum mod 256, | & << >> = Z.lor/Z.land/Z.shiftl/Z.shiftr on 0..255'],
+ 'technique': 'Coq proof (round-trip theorems over a Gallina model of telegram.rs) + differential correspondence model vs crate',
+ 'level_text': 'Machine-checked theorems (Coq 8.16.1, closed under the global context) that the model of the encoder writes exactly the PROFIBUS '
+               'frame layout, reports its length, and that the model of the decoder inverts it for every header, function code and payload up to the '
+               'frame limit, consuming exactly those bytes. The model is tied to the crate on every run by executing both on ~40k generated '
+               "encodes/decodes (all SAP combinations x all PDU lengths, all function codes, all 256 FC bytes) and comparing outputs; the theorem's "
+               "boolean oracle also runs on the crate's outputs.",
+ 'level_note': 'Trusted: Coq kernel, the regex translator for constants/enum tables, OCaml extraction + driver, Rust harness; the hand-written model '
+               'is validated, not verified, against telegram.rs (differential execution on the explored inputs).',
+ 'design_ref': 'DESIGN.md section 4, C09',
+ 'assumptions': ["addresses 0..127, SAP and PDU bytes 0..255, length byte <= 249 (the code's own assert), transmit buffer >= telegram length"]}
 
-PROPS["C16"] = {
-    "coq": "Properties/C16.v",
-    "domains": ["phyrx"],
-    "nontrivial": ["buf:", "sim:RXS", "sim:RXQ"],
-    "rule": "cases = generated RXB/RXS/RXQ lines, deduplicated: every chunking of 11 short streams (<= 11 bytes) under receive_all_telegrams and "
-            "receive_telegram; every SD1/SD2/SD3 PDU length x SAP combination inside 1..3-telegram streams with random chunkings; random streams of "
-            "1..8 telegrams (token, SC, SD1/SD2/SD3) in 1..2 episodes with 7 chunking styles incl. empty polls; streams with garbage episodes of 8 kinds "
-            "between clean ones; simulator runs over all 11 baudrates with polls during and between transmissions; simulator corner cases (short gaps, "
-            "collisions, receiver transmitting, time running backwards, arithmetic overflow). non-trivial = harness-PHY cases + simulator cases (each is a "
-            "whole poll sequence)",
-    "trusted_base": PHY_TB,
-    "technique": "Coq proof (refinement of the receive helpers to a frame-length spec of the byte stream, by induction over telegram lists and chunk lists) "
-                 "+ differential correspondence model vs crate over the harness PHY and SimulatorPhy",
-    "level_text": "Machine-checked theorems (Coq 8.16.1, closed under the global context), for ALL lists of valid telegrams and ALL chunkings (no bounds): "
-                  "the model of receive_all_telegrams / receive_telegram, fed chunk after chunk, delivers exactly the telegrams sent, in order, each once, "
-                  "flags a telegram as last exactly when nothing is buffered behind it, leaves exactly the incomplete tail in the buffer, terminates within "
-                  "|buffer|+1 iterations without panic for every byte string and every callback, drops the whole buffer on undecodable data and then "
-                  "receives a telegram that arrives separately; the simulator's byte availability is a monotone prefix of the stream. The helper model "
-                  "over an abstract PHY (view/drop) is proved equal to the byte-list model for every coherent PHY, and SimulatorPhy and the harness PHY "
-                  "are proved coherent. Models tied to the crate on every run by ~13k poll sequences over both PHYs with 0 divergences; the "
-                  "frame-length oracle (decoder-free) also runs on the crate's outputs.",
-    "level_note": "Trusted: Coq kernel, translator for constants/tables, extraction + OCaml driver, Rust harness (its BufPhy and the reference frame builder); "
-                  "hand models validated differentially, not verified, against phy/mod.rs, simulator.rs, telegram.rs. The serial/linux/rp2040 PHYs are not covered.",
-    "design_ref": "DESIGN.md section 4, C16",
-    "assumptions": ["telegrams valid for the encoder: addresses 0..127, SAP/PDU bytes 0..255, length byte <= 249",
-                    "fault-free clauses: the bytes seen are the concatenation of the frames; resync clause: the next telegram arrives after the discard",
-                    "simulator monotonicity: bus time not before the start of the last transmission and below the u64 overflow point of time_to_bits"],
-}
+PROPS["C10"] = {'claimed': True,
+ 'coq': 'Properties/C10.v',
+ 'domains': ['codec'],
+ 'nontrivial': ['dec:A', 'dec:R', 'mut:'],
+ 'rule': 'cases = generated DEC/MUT lines (all strings of length <= 1, length-2 strings with delimiter first (all in thorough), structured SD2 '
+         'headers, every proper prefix and every position x 8 bit flips + random + delimiter substitutions of valid frames, random/mutational '
+         'strings to 262 bytes), deduplicated; non-trivial = distinct decodes that get past the length guard (model verdict Accept or Reject) plus '
+         'all single-byte substitutions',
+ 'trusted_base': ['hand model coq/Model/Telegram.v of src/fdl/telegram.rs (FunctionCode, DataTelegramHeader::serialize, '
+                  "DataTelegram/TokenTelegram/Telegram::deserialize, TelegramTx), tied by differential execution on this run's cases",
+                  'Rust u8/usize operators as modelled: wrapping_add = sum mod 256, | & << >> = Z.lor/Z.land/Z.shiftl/Z.shiftr on 0..255'],
+ 'technique': 'Coq proof (decoder characterisation, totality, prefix consistency, single-byte corruption) + differential correspondence',
+ 'level_text': 'Machine-checked theorems over all byte strings (no length bound) about the Gallina model of Telegram::deserialize: never panics, '
+               'Accept lies inside the input and meets the frame criterion, NeedMore only when shorter than the announced length, verdicts are '
+               'stable under extension, every single-byte substitution of a valid data frame or SC is rejected (except first-delimiter swaps to '
+               'another valid delimiter, a limit of the frame format). Model tied to the crate by differential execution incl. all short strings and '
+               'every position of sampled valid frames.',
+ 'level_note': 'Trusted: Coq kernel, translator, extraction + OCaml driver, Rust harness; hand model validated differentially, not verified.',
+ 'design_ref': 'DESIGN.md section 4, C10',
+ 'assumptions': ['input bytes 0..255',
+                 'a substitution of the first start delimiter by another valid delimiter is outside the single-byte clause (DESIGN 4.0)']}
+
+PROPS["C20"] = {'coq': 'Properties/C20.v',
+ 'domains': ['prm'],
+ 'nontrivial': ['set:ok', 'set:err', 'wv:ok', 'wv:err', 'new:'],
+ 'rule': 'cases = corpus/prm (F9 witnesses) + generated lines, deduplicated: WV = write_value_to_slice on bare slices (every data type incl. all '
+         'Bit(0..9)/BitArea(0..8,0..8) and malformed positions x boundary/extreme values x short/exact/long slices); PRM = a random description '
+         '(single fields of every type; several Bit/BitArea fields sharing a byte over constants plus integers; fully random overlapping layouts '
+         'with malformed bit positions, out-of-type defaults, duplicated names) followed by 3-14 set_prm/set_prm_from_text calls with in-range, '
+         'boundary, out-of-range, out-of-type, extreme (i64::MIN/MAX) values, unknown names and texts; as_bytes() and Ok/Err(kind)/PANIC after every '
+         'call. evaluations = case lines; non-trivial = individual new()/set calls and write_value calls by model verdict (set:ok:<type>, '
+         'set:err:<kind>, new:*, wv:*)',
+ 'trusted_base': ['hand model coq/Model/Prm.v of gsd-parser/src/lib.rs (UserPrmDataType::write_value_to_slice, PrmValueConstraint::assert_valid, '
+                  'get_prm, get_value_from_text, write_constrained_value_to_slice, PrmBuilder::{new, set_prm, set_prm_from_text, as_bytes}), tied by '
+                  "differential execution on this run's cases",
+                  'gen/tr_prm.py: data type enum, size() table and the integer type of every integer arm of write_value_to_slice regenerated from '
+                  'the source',
+                  "hand specification coq/Model/PrmOracle.v (value ranges of the GSD data types, field bit positions, big-endian two's complement as "
+                  'Z.testbit)',
+                  'Rust u8 operators as modelled: & | ^ << on 0..255 = Z.land/Z.lor/Z.lxor/Z.shiftl (mod 256); names/text keys are numeric ids '
+                  'mapped to the strings p<id>/t<id>'],
+ 'technique': 'Coq proof (overlay / exact-bits / rejects-unchanged / exact type ranges / no-panic / history theorems over a Gallina model of the '
+              'parameter-block builder, with the known class F9-bitarea excluded and refuted inside) + differential correspondence model vs crate + '
+              "spec oracle on the crate's outputs",
+ 'level_text': "Machine-checked theorems (Coq 8.16.1, closed under the global context) about the Gallina model of gsd-parser's PrmBuilder: new() "
+               'builds exactly the constants overlaid field by field with the defaults; an admitted set_prm/set_prm_from_text changes exactly the '
+               "bits that (offset, data type) define to the big-endian two's-complement value and no other bit, for every data type and every block "
+               'state; every other call (unknown name/text, outside range/enumeration or data type) returns Err and leaves the block unchanged; each '
+               'data type accepts exactly its value range (signed types their signed range); no description and no call sequence panics; the '
+               'per-call oracle holds along every history. All of it for everything OUTSIDE one known class (F9-bitarea: a BitArea field written '
+               'into a byte that has a bit set outside the area), inside which the law is refuted by theorem and reported as a known finding. The '
+               'model is tied to the crate on every run by executing both on ~8k generated case lines (~35k individual new/set/write_value calls) '
+               "and comparing as_bytes() and Ok/Err kind after every call; the specification oracle also runs on the crate's outputs.",
+ 'level_note': 'KNOWN FINDING F9-bitarea (status finding, not fixable with the suite unedited: regress_prm snapshot pins the clobbered byte): '
+               'BitArea assigns the whole byte, so the property is FALSE of the crate inside the known class; the check prints KNOWN-FINDING and '
+               'excuses only that class (a weaker oracle - own bits correct, all other bytes unchanged - still runs there). Three further F9 defects '
+               'were repaired in the repository clone (Bit could not be cleared, Signed16 through u16, overflow panics on bit positions outside the '
+               'byte); the model is of the repaired code. Trusted: Coq kernel, the regex translator, OCaml extraction + driver, Rust harness; the '
+               'hand-written model is validated differentially, not verified, against lib.rs. usize overflow of offset+size and allocation failure '
+               'are outside the model (offsets are nat).',
+ 'design_ref': 'DESIGN.md section 4, C20; section 7, F9',
+ 'assumptions': ['constant bytes 0..255, bit positions 0..255 (u8), values i64; offsets small enough that offset+size does not overflow usize and '
+                 'the block can be allocated',
+                 'outside the known class F9-bitarea (known_write / known_new in coq/Model/PrmOracle.v)',
+                 'text keys of one PrmText are unique (BTreeMap); the first reference with a name wins (get_prm)']}
+
+PROPS["C17"] = {'coq': 'Properties/C17.v',
+ 'domains': ['diag'],
+ 'nontrivial': ['fill:stored',
+                'fill:too-large',
+                'fill:no-buffer',
+                'iter:1-block',
+                'iter:2+blocks',
+                'iter:0-blocks',
+                'dp:accepted',
+                'dp:rejected',
+                'scan:found'],
+ 'rule': 'cases = generated ED lines (hook path: ExtendedDiagnostics::from_buffer + fill + raw_diag_buffer + iter_diag_blocks + Debug; all 1-byte '
+         'strings x capacities {none,0,1,|ext|-1,|ext|,64,244}, all 65536 2-byte strings, every header byte with exact / short / long / chained '
+         'structured tails, all values of channel bytes 1 and 2, fill sequences with previous content, random and structured strings of every length '
+         '0..244), DP lines (public path: DpMaster + Peripheral driven through FdlApplication::transmit_telegram/receive_reply with hand-made reply '
+         'telegrams, PDUs of every length 0..244, reply sequences with wrong SAPs, SC and short PDUs in between, last_diagnostics() + Debug with the '
+         'formatting logger installed) and SCAN lines (DpScanner::receive_reply), plus corpus/diag, deduplicated; non-trivial = fills (stored / too '
+         'large / no buffer), iterations of available buffers by number of blocks, accepted and rejected DP replies, scanner finds',
+ 'trusted_base': ['hand model coq/Model/Diag.v of src/dp/diagnostics.rs (ExtendedDiagnostics, ExtDiagBlockIter::next, ChannelError/ChannelDataType) '
+                  "and of handle_diagnostics_response / parse_diag_response (peripheral.rs, scan.rs), tied by differential execution on this run's "
+                  'cases',
+                  'gen/tr_diag.py: DiagnosticFlags masks, header byte positions, channel error / data type tables, block type codes, length masks '
+                  'and the presence of the length-0 guard are regenerated from the source; the hand-written specification tables in '
+                  'Model/DiagOracle.v are proved equal to them',
+                  'Rust u8/u16/usize operators as modelled: & | >> = Z.land/Z.lor/Z.shiftr on 0..255, from_le/be_bytes = a + 256 b, flags.remove = '
+                  'Z.ldiff; usize cursor arithmetic cannot overflow for buffers that fit in memory (not modelled)',
+                  'BitSlice<u8, Lsb0>::from_slice / iter_ones of the bitvec crate are taken as: bit k of byte j is index 8j+k (checked '
+                  'differentially)'],
+ 'technique': 'Coq proof (header faithfulness, buffer fill, iterator totality and tiling for all byte strings, channel byte sweeps) over a Gallina '
+              'model of the fixed code + differential correspondence model vs crate through the hook and through the public DP path',
+ 'level_text': 'Machine-checked theorems (Coq 8.16.1, closed under the global context) over ALL byte strings about the Gallina model of the '
+               'diagnostics code: the reported ident, master address and every flag bit equal the wire bytes except the deliberately cleared marker '
+               'bit 10; PDUs shorter than 6 bytes (and only those) are rejected; extended diagnostics are stored iff EXT_DIAG is set, a buffer '
+               'exists and the string fits, otherwise the previous content is unchanged; the block iterator never panics, needs at most |buf|+1 '
+               'steps, and its output is THE tiling of the buffer into consecutive well-formed blocks of their announced length, stopping exactly at '
+               'the first malformed (reserved type, length 0) or truncated block; identifier / device data and all 256 values of each channel byte '
+               'decode as the specification tables say; Debug formatting and any history of replies through handle_diagnostics_response never panic. '
+               'The model is of the code WITH the F5 fix (length-0 block headers panicked the unfixed iterator; proved for the unguarded model, '
+               'reproduced through the public DP path, fixed in commit c46c975, guard detected by the translator). Model tied to the crate on every '
+               'run by ~87k cases (all 1- and 2-byte strings, all header bytes, PDU lengths 0..244, all capacity classes) through the verif-hooks '
+               "wrappers and through DpMaster/DpScanner; the theorems' boolean oracles also run on the crate's outputs.",
+ 'level_note': 'Trusted: Coq kernel, gen/tr_diag.py, extraction + OCaml driver, Rust harness; the hand-written model is validated, not verified, '
+               'against the Rust source (differential execution). Debug output is compared only as panic / no panic. Observation outside the '
+               'property: iter_diag_blocks().next() on a peripheral WITHOUT diag buffer panics (raw_diag_buffer().unwrap()); modelled and stated '
+               'explicitly.',
+ 'design_ref': 'DESIGN.md section 4, C17 (interpretation 4.0; finding F5 in section 7)',
+ 'assumptions': ["bytes 0..255; the 'permanent' marker bit (bit 10 of the status word) is cleared on purpose and excluded from 'equal to the wire' "
+                 '(DESIGN 4.0)',
+                 'iteration is over the visible bytes of a container that has a buffer (without buffer there is no byte string; next() panics there, '
+                 'stated as C17_container_without_buffer_panics)',
+                 'debug logging enabled (worst case: the ext diag buffer is formatted on every stored reply)']}
+
+PROPS["C02"] = {'claimed': True,
+ 'coq': 'Properties/C02.v',
+ 'domains': ['las'],
+ 'nontrivial': ['disc:n', 'step:W:D', 'step:W:V', 'step:W:L', 'step:N', 'step:R', 'api:reached-valid'],
+ 'rule': 'cases = operation sequences on one TokenRing (own address, then W sa da / C / N a / R a), observed after EVERY operation (las_state from '
+         'Debug, ready_for_ring, NS, PS, LAS): all 256 own addresses; exhaustive sequences up to length 3-6 over small address alphabets incl. 0, '
+         '125, 126..128, 255; random rings (1..126 members, 0 and 125 forced in, two-station rings) discovered from an ignored prefix + wrap-around '
+         '+ two rotations, then further rotations, leaves, joins, own passes, GAP results (set_next_station / remove_station), invalid addresses, '
+         'claims; random operation soup; the same discovery/leave/join histories through the public API only (a listening FdlActiveStation on the '
+         'simulator bus hearing token telegrams, observed by inspect_token_ring()). Deduplicated. Non-trivial = discovery cases accepted by the Coq '
+         'shape predicate plus every witnessed pass in Discovery/Verification/Valid and every N/R step',
+ 'trusted_base': ['hand model coq/Model/TokenRing.v of src/fdl/token_ring.rs (bit array of 128 as list bool, every index/range panic site, Debug '
+                  "impl), tied by differential execution after every operation on this run's cases",
+                  'bitvec BitArray semantics as used: set/index/range-slice panic outside 0..128, fill, any, iter_ones ascending'],
+ 'technique': 'Coq proof (LAS discovery / verification / live update theorems over a Gallina model of token_ring.rs, all rings, all own addresses, '
+              'all initial LAS contents) + differential correspondence model vs crate after every operation',
+ 'partial_gap': 'global half (N-station timed composition: convergence within a bounded time, token once per rotation in address order) is not '
+                'proved; only the per-station LAS data structure theorems are',
+ 'level_text': 'PARTIAL: only the per-station data-structure half of C02 is proved; the global half (N-station timed composition: convergence within '
+               'a bounded time, every station receiving the token once per rotation in address order) is NOT proved. Proved (Coq 8.16.1, closed '
+               'under the global context) about the Gallina model of fdl::TokenRing, for every ring R (strictly increasing addresses 0..125), every '
+               'own address and every initial LAS content: after the wrap-around and two rotations of R a listening station is Valid with LAS = R '
+               'exactly and NS/PS the cyclic neighbours of TS; Valid is reached by listening only through a verification rotation in which every '
+               'pass verified against the LAS frozen at the end of discovery; an established LAS is unchanged by further passes of R; a skipped '
+               "station is removed exactly, a newcomer's pass adds exactly it; addresses > 125 are ignored; no panic for any byte; NS/PS always are "
+               'the cyclic neighbours of TS in the LAS. The model is tied to the crate on every run by replaying ~10^5 operation sequences on both '
+               "and comparing the full observable state after every operation; the theorems' boolean oracles also run on the crate's outputs.",
+ 'level_note': 'Trusted: Coq kernel, extraction + OCaml driver, Rust harness, the verif-hooks wrapper (forwarding only); hand model validated '
+               'differentially, not verified, against token_ring.rs. The global ring-formation claim of C02 is outside this check.',
+ 'design_ref': "DESIGN.md section 4, C02 (data-structure half) - LAS; global half: section 4 'C02 (global half), C06'",
+ 'assumptions': ['own address 0..125 for the discovery/stability theorems (0..127 for no-panic)',
+                 'witnessed addresses are bytes 0..255',
+                 'set_next_station / remove_station arguments < 128 (the FDL layer only passes addresses < HSA <= 126)',
+                 'the LAS bit array has 128 entries (BitArr!(for 128))']}
+
+PROPS["C16"] = {'coq': 'Properties/C16.v',
+ 'domains': ['phyrx'],
+ 'nontrivial': ['buf:', 'sim:RXS', 'sim:RXQ'],
+ 'rule': 'cases = generated RXB/RXS/RXQ lines, deduplicated: every chunking of 11 short streams (<= 11 bytes) under receive_all_telegrams and '
+         'receive_telegram; every SD1/SD2/SD3 PDU length x SAP combination inside 1..3-telegram streams with random chunkings; random streams of '
+         '1..8 telegrams (token, SC, SD1/SD2/SD3) in 1..2 episodes with 7 chunking styles incl. empty polls; streams with garbage episodes of 8 '
+         'kinds between clean ones; simulator runs over all 11 baudrates with polls during and between transmissions; simulator corner cases (short '
+         'gaps, collisions, receiver transmitting, time running backwards, arithmetic overflow). non-trivial = harness-PHY cases + simulator cases '
+         '(each is a whole poll sequence)',
+ 'trusted_base': ['hand models coq/Model/Phy.v (receive_telegram, receive_all_telegrams, poll_pending_received_bytes, transmit_telegram of '
+                  'src/phy/mod.rs, both over a byte list and over an abstract PHY = view/drop pair), coq/Model/SimBus.v (SimulatorBus/SimulatorPhy '
+                  'of src/phy/simulator.rs: current_cursor, pending_bytes, is_active, enqueue_telegram with its collision/delay panics, cursor) and '
+                  "coq/Model/Telegram.v (decoder), tied by differential execution on this run's cases",
+                  'one receive_* call sees an atomic snapshot of the PHY (true of SimulatorPhy and of the harness PHY: the bus time does not change '
+                  'inside a call)',
+                  'Instant/Duration arithmetic as modelled: i64/u64 with overflow = panic (debug build), Instant - Instant = absolute difference'],
+ 'technique': 'Coq proof (refinement of the receive helpers to a frame-length spec of the byte stream, by induction over telegram lists and chunk '
+              'lists) + differential correspondence model vs crate over the harness PHY and SimulatorPhy',
+ 'level_text': 'Machine-checked theorems (Coq 8.16.1, closed under the global context), for ALL lists of valid telegrams and ALL chunkings (no '
+               'bounds): the model of receive_all_telegrams / receive_telegram, fed chunk after chunk, delivers exactly the telegrams sent, in '
+               'order, each once, flags a telegram as last exactly when nothing is buffered behind it, leaves exactly the incomplete tail in the '
+               'buffer, terminates within |buffer|+1 iterations without panic for every byte string and every callback, drops the whole buffer on '
+               "undecodable data and then receives a telegram that arrives separately; the simulator's byte availability is a monotone prefix of the "
+               'stream. The helper model over an abstract PHY (view/drop) is proved equal to the byte-list model for every coherent PHY, and '
+               'SimulatorPhy and the harness PHY are proved coherent. Models tied to the crate on every run by ~13k poll sequences over both PHYs '
+               "with 0 divergences; the frame-length oracle (decoder-free) also runs on the crate's outputs.",
+ 'level_note': 'Trusted: Coq kernel, translator for constants/tables, extraction + OCaml driver, Rust harness (its BufPhy and the reference frame '
+               'builder); hand models validated differentially, not verified, against phy/mod.rs, simulator.rs, telegram.rs. The serial/linux/rp2040 '
+               'PHYs are not covered.',
+ 'design_ref': 'DESIGN.md section 4, C16',
+ 'assumptions': ['telegrams valid for the encoder: addresses 0..127, SAP/PDU bytes 0..255, length byte <= 249',
+                 'fault-free clauses: the bytes seen are the concatenation of the frames; resync clause: the next telegram arrives after the discard',
+                 'simulator monotonicity: bus time not before the start of the last transmission and below the u64 overflow point of time_to_bits']}
